@@ -332,6 +332,9 @@ func (fx *Fx) builtin(st *State, name string, call *ast.CallExpr) []Val {
 	case "append":
 		return []Val{fx.builtinAppend(st, call)}
 	case "delete":
+		if gk, gr := fx.containerGuard(st, call.Args[0]); gk != "" {
+			fx.guardCheck(st, &Loc{kind: locHeap, key: gk, ref: gr}, true)
+		}
 		m := fx.eval(st, call.Args[0])
 		mt := types.Unalias(m.GT).Underlying().(*types.Map)
 		k := fx.convertTo(st, fx.eval(st, call.Args[1]), mt.Key())
